@@ -277,6 +277,8 @@ func (e *protoExec) opInner(op string) string {
 			e.unrel = true
 		}
 		return mark(e.state())
+	case "p.astat":
+		return "~astat" // a question to the model driver only
 	case "p.read":
 		i, ok := node(f[1])
 		if !ok {
@@ -399,6 +401,27 @@ func (g *protoGen) elect(want int) {
 type protoTarget struct{}
 
 func (protoTarget) Timeout() time.Duration { return 120 * time.Second }
+
+// ModelStats counts how the model driver explained the scripts by A-Repl steps (answers to p.astat).
+func (protoTarget) ModelStats(ops []string, model []string, acc map[string]int) {
+	for i, o := range ops {
+		if o != "p.astat" || i >= len(model) {
+			continue
+		}
+		m := model[i]
+		switch {
+		case strings.HasPrefix(m, "arepl on steps="):
+			n, _ := strconv.Atoi(strings.TrimPrefix(m, "arepl on steps="))
+			acc["arepl_scripts_explained_to_the_end"]++
+			acc["arepl_steps_checked"] += n
+		case strings.HasPrefix(m, "arepl off: "):
+			acc["arepl_scripts_left_the_model"]++
+			acc["arepl_off: "+strings.TrimPrefix(m, "arepl off: ")]++
+		case strings.HasPrefix(m, "arepl unexplained"):
+			acc["arepl_unexplained"]++
+		}
+	}
+}
 
 // C03: what a follower acknowledges is what the leader holds.
 type C03 struct{ protoTarget }
@@ -863,7 +886,7 @@ func genProtoCases(rng *rand.Rand, tier, which string) []core.Case {
 	}
 	var cases []core.Case
 	for i := 0; i < n; i++ {
-		cases = append(cases, core.Case{Name: fmt.Sprintf("proto-%s-%d", which, i), Ops: genProtoDirected(rng, which, i)})
+		cases = append(cases, core.Case{Name: fmt.Sprintf("proto-%s-%d", which, i), Ops: append(genProtoDirected(rng, which, i), "p.astat")})
 	}
 	return cases
 }
